@@ -45,6 +45,8 @@ PropFails(t) ==
   \cup (IF t.maxBody >= 0 /\ t.mode = "cl" /\ GotTotal(t.ev, 1) > t.maxBody + t.buf THEN {"ReadBound"} ELSE {})
   \cup (IF t.maxBody >= 0 /\ Len(t.out) > t.maxBody + t.buf THEN {"ReadBound"} ELSE {})
   \cup (IF t.phase = "done" /\ (t.spooled # (Len(t.out) > t.buf)) THEN {"Spooling"} ELSE {})
+  \* every presentation of the body (request.body again; a peek, then a full read) is the same bytes
+  \cup (IF t.phase = "done" /\ t.reread = "differs" THEN {"Presentations"} ELSE {})
 
 TInit == /\ tid \in 1..Len(Traces)
          /\ l = 1
